@@ -219,6 +219,8 @@ func svcRow(node string, s *structs.NodeService) SvcRow {
 		Kind: kind, Native: s.Connect.Native, Dest: s.Proxy.DestinationServiceName, Ups: ups, PM: s.Connect.PeerMeta != nil, VIP: vip}
 }
 
+func svcRowCmp(r SvcRow) SvcRow { return r }
+
 func chkRow(c *structs.HealthCheck) ChkRow {
 	st, ok := statusCode[c.Status]
 	if !ok {
@@ -392,6 +394,17 @@ func (b *backend) CatalogRegister(req *structs.RegisterRequest) error {
 	}
 	for _, c := range req.Checks {
 		op.RC = append(op.RC, chkRow(c))
+	}
+	if os.Getenv("VERIF_DEBUG_SAME") != "" && req.Service != nil {
+		_, ex, _ := b.store.NodeService(nil, req.Node, req.Service.ID, nil, req.PeerName)
+		if ex != nil && reflect.DeepEqual(svcRow(req.Node, ex), svcRowCmp(svcRow(req.Node, req.Service))) {
+			a, c := reflect.ValueOf(*ex), reflect.ValueOf(*req.Service)
+			for i := 0; i < a.NumField(); i++ {
+				if !reflect.DeepEqual(a.Field(i).Interface(), c.Field(i).Interface()) {
+					fmt.Fprintf(os.Stderr, "SAME-HASH-DIFF field %s: stored %#v received %#v\n", a.Type().Field(i).Name, a.Field(i).Interface(), c.Field(i).Interface())
+				}
+			}
+		}
 	}
 	buf, err := structs.Encode(structs.RegisterRequestType, req)
 	if err != nil {
@@ -574,7 +587,7 @@ func (e *exporter) reg(req *structs.RegisterRequest) error {
 }
 
 func (e *exporter) mutate(r *rand.Rand) string {
-	switch k := r.Intn(13); {
+	switch k := r.Intn(14); {
 	case k < 4: // register / update an instance with checks
 		node := pick(r, nodeNames[:3])
 		name := pick(r, svcNames[:2])
@@ -738,6 +751,32 @@ func (e *exporter) mutate(r *rand.Rand) string {
 			}
 		}
 		return "takeover"
+	case k < 12: // a check id changes owner: node-level <-> check of an instance on that node
+		_, cs, _ := e.store.ChecksInState(nil, api.HealthAny, nil, "")
+		if len(cs) == 0 {
+			return "noop"
+		}
+		c := cs[r.Intn(len(cs))].Clone()
+		if c.ServiceID != "" {
+			c.ServiceID, c.ServiceName, c.ServiceTags = "", "", nil
+		} else {
+			_, nsl, _ := e.store.NodeServices(nil, c.Node, nil, "")
+			if nsl == nil || len(nsl.Services) == 0 {
+				return "noop"
+			}
+			ids := []string{}
+			for id := range nsl.Services {
+				ids = append(ids, id)
+			}
+			sort.Strings(ids)
+			c.ServiceID = ids[r.Intn(len(ids))]
+		}
+		c.RaftIndex = structs.RaftIndex{}
+		e.idx++
+		if err := e.store.EnsureCheck(e.idx, c); err != nil {
+			return "chk-owner-failed"
+		}
+		return "chk-owner"
 	default: // replace a node: same name, other ID (old one had no healthy serf check, or no ID)
 		_, ns, _ := e.store.Nodes(nil, nil, "")
 		if len(ns) == 0 {
@@ -858,6 +897,9 @@ func malformed(r *rand.Rand, name string) []structs.CheckServiceNode {
 // seedImporter: local rows and rows of the other peer whose names collide with what peer-a sends,
 // including a local proxy with upstreams (mesh-topology rows).
 func seedImporter(r *rand.Rand, im *importer) {
+	// rows of the other peer arrive the way imported rows always do: through the handler
+	// (protobuf -> structs -> msgpack -> store), one snapshot per service name
+	byName := map[string][]structs.CheckServiceNode{}
 	for _, peer := range []string{"", peerB} {
 		for _, node := range nodeNames[:3] {
 			if r.Intn(3) == 0 {
@@ -867,12 +909,18 @@ func seedImporter(r *rand.Rand, im *importer) {
 			for j := 0; j < 1+r.Intn(2); j++ {
 				name := pick(r, svcNames)
 				s := mkSvc(r, name, pick(r, svcIDs[name]))
-				req := &structs.RegisterRequest{ID: n.ID, Node: n.Node, Address: n.Address, Datacenter: n.Datacenter,
-					TaggedAddresses: n.TaggedAddresses, NodeMeta: n.Meta, Service: s, PeerName: peer}
-				req.Checks = append(req.Checks, mkChk(r, node, pick(r, chkIDs[2:]), s.ID, name))
+				var checks structs.HealthChecks
+				checks = append(checks, mkChk(r, node, pick(r, chkIDs[2:]), s.ID, name))
 				if r.Intn(2) == 0 {
-					req.Checks = append(req.Checks, mkChk(r, node, pick(r, chkIDs[:2]), "", ""))
+					checks = append(checks, mkChk(r, node, pick(r, chkIDs[:2]), "", ""))
 				}
+				if peer != "" {
+					nn := *n
+					byName[name] = append(byName[name], structs.CheckServiceNode{Node: &nn, Service: s, Checks: checks})
+					continue
+				}
+				req := &structs.RegisterRequest{ID: n.ID, Node: n.Node, Address: n.Address, Datacenter: n.Datacenter,
+					TaggedAddresses: n.TaggedAddresses, NodeMeta: n.Meta, Service: s, Checks: checks}
 				im.be.idx++
 				if err := im.store.EnsureRegistration(im.be.idx, req); err != nil {
 					continue
@@ -888,6 +936,12 @@ func seedImporter(r *rand.Rand, im *importer) {
 			}
 		}
 	}
+	for _, name := range svcNames {
+		if nodes := byName[name]; len(nodes) > 0 {
+			_ = im.upsertService(peerB, name, nodes)
+		}
+	}
+	im.be.log = nil
 }
 
 // ---------------------------------------------------------------- one event = one case
@@ -951,10 +1005,11 @@ func hints(c *Case, before *Cat) {
 }
 
 type ReplayWorld struct {
-	Seed  int64 `json:"seed"`
-	World int   `json:"world"`
-	Step  int   `json:"step"`
-	VIP   bool  `json:"vip"`
+	Seed   int64 `json:"seed"`
+	World  int   `json:"world"`
+	Step   int   `json:"step"`
+	VIP    bool  `json:"vip"`
+	Export int   `json:"export,omitempty"` // 1 + index of an export-side case (then World/Step are unused)
 }
 
 // ---------------------------------------------------------------- direct oracle (model independent)
@@ -1034,14 +1089,19 @@ type snapClass struct {
 	canonNames bool
 }
 
+// classify evaluates, on the received data and the prior catalog only, the hypotheses of the
+// theorems C17_mirror_partial / C17_same_peer_frame / C17_frame_topology_partial:
+//
+//	coherent  = Snapshot.snap_coh        rename    = not MirrorTop.ids_keep_names
+//	idsStable = check_ids_keep_owner     owned     = slots_owned
+//	hasUps / storedUps = not (Topo.quiet and no upstreams in the snapshot)
 func classify(in *oracleIn) snapClass {
 	cl := snapClass{coherent: true, idsStable: true, owned: true, canonNames: true}
 	p, sn := in.peer, in.service
 	type nk = [2]string
 	nodeOf := map[string]NodeRow{}
 	instKey := map[nk]bool{}
-	nodeChecks := map[string]map[string]ChkRow{} // node -> id -> node-level check row
-	chkByNode := map[nk]ChkRow{}                 // (node, id) -> row
+	chkByNode := map[nk]ChkRow{} // (node, id) -> row
 	insts := toInsts(p, in.nodes)
 	for _, i := range insts {
 		if i.Svc.Name != sn || i.Svc.ID == "" {
@@ -1059,53 +1119,56 @@ func classify(in *oracleIn) snapClass {
 			cl.coherent = false
 		}
 		instKey[k] = true
-		if (i.Svc.Kind == 1 || i.Svc.Native) && len(i.Svc.Ups) > 0 {
+		if len(i.Svc.Ups) > 0 {
 			cl.hasUps = true
 		}
 		seen := map[string]bool{}
 		for _, c := range i.Chks {
-			if c.Node != i.Node.Name || (c.SID != "" && c.SID != i.Svc.ID) || seen[c.ID] || c.Status == 0 || c.Status == 9 {
+			if c.Node != i.Node.Name || (c.SID != "" && c.SID != i.Svc.ID) || seen[c.ID] || c.Status == 0 || c.Status == 9 || c.ID == "" {
 				cl.coherent = false
 			}
 			seen[c.ID] = true
-			if o, ok := chkByNode[nk{c.Node, c.ID}]; ok && !sameChkCore(o, c) {
+			if o, ok := chkByNode[nk{c.Node, c.ID}]; ok && o != c {
 				cl.coherent = false
 			}
 			chkByNode[nk{c.Node, c.ID}] = c
-			if c.SID == "" {
-				if nodeChecks[i.Node.Name] == nil {
-					nodeChecks[i.Node.Name] = map[string]ChkRow{}
-				}
-				nodeChecks[i.Node.Name][c.ID] = c
-			}
 		}
 	}
-	// node-level checks uniform over the instances of a node
+	// node-level checks are listed under every instance of the node
 	for _, i := range insts {
-		have := map[string]bool{}
 		for _, c := range i.Chks {
-			have[c.ID] = true
+			if c.SID != "" {
+				continue
+			}
+			for _, j := range insts {
+				if j.Node.Name != i.Node.Name {
+					continue
+				}
+				found := false
+				for _, d := range j.Chks {
+					if d == c {
+						found = true
+					}
+				}
+				if !found {
+					cl.coherent = false
+				}
+			}
 		}
-		for id := range nodeChecks[i.Node.Name] {
-			if !have[id] {
+	}
+	// one node name per node ID inside the snapshot
+	for _, i := range insts {
+		for _, j := range insts {
+			if i.Node.ID != "" && i.Node.ID == j.Node.ID && i.Node.Name != j.Node.Name {
 				cl.coherent = false
 			}
 		}
 	}
-	// distinct snapshot nodes have distinct non-empty IDs
-	ids := map[string]string{}
-	for name, n := range nodeOf {
-		if n.ID != "" {
-			if o, ok := ids[n.ID]; ok && o != name {
-				cl.coherent = false
-			}
-			ids[n.ID] = name
-		}
-	}
+	// ids_keep_names
 	for _, n := range in.catBefore.Nodes {
 		if n.Peer == p && n.ID != "" {
-			for name, sn := range nodeOf {
-				if sn.ID == n.ID && name != n.Name {
+			for _, i := range insts {
+				if i.Node.ID == n.ID && i.Node.Name != n.Name {
 					cl.rename = true
 				}
 			}
@@ -1115,45 +1178,53 @@ func classify(in *oracleIn) snapClass {
 	for _, s := range in.catBefore.Svcs {
 		if s.Peer == p {
 			storedSvc[nk{s.Node, s.ID}] = s
-			if instKey[nk{s.Node, s.ID}] && len(s.Ups) > 0 {
+			if len(s.Ups) > 0 {
 				cl.storedUps = true
 			}
-		}
-	}
-	hostsSn := map[string]bool{}
-	for _, s := range in.catBefore.Svcs {
-		if s.Peer == p && s.Name == sn {
-			hostsSn[s.Node] = true
 		}
 	}
 	for _, c := range in.catBefore.Chks {
 		if c.Peer != p {
 			continue
 		}
-		if o, ok := chkByNode[nk{c.Node, c.ID}]; ok && o.SID != c.SID {
-			cl.idsStable = false
-		}
-		if _, inSnap := nodeOf[c.Node]; inSnap {
-			if c.SID == "" && !hostsSn[c.Node] {
-				if _, ok := nodeChecks[c.Node][c.ID]; !ok {
-					cl.owned = false
+		// check_ids_keep_owner
+		for _, i := range insts {
+			for _, k := range i.Chks {
+				if c.Node == i.Node.Name && c.ID == k.ID && k.SID != c.SID {
+					cl.idsStable = false
 				}
 			}
-			if c.SID != "" && instKey[nk{c.Node, c.SID}] {
-				if s, ok := storedSvc[nk{c.Node, c.SID}]; !ok || s.Name != sn {
-					if _, ok := chkByNode[nk{c.Node, c.ID}]; !ok {
-						cl.owned = false
-					}
+		}
+		// slots_owned
+		for _, i := range insts {
+			if c.Node != i.Node.Name || !(c.SID == "" || c.SID == i.Svc.ID) {
+				continue
+			}
+			listed := false
+			for _, k := range i.Chks {
+				if k.ID == c.ID {
+					listed = true
 				}
+			}
+			if listed {
+				continue
+			}
+			ok := false
+			for _, j := range insts {
+				if j.Node.Name != i.Node.Name {
+					continue
+				}
+				z, has := storedSvc[nk{i.Node.Name, j.Svc.ID}]
+				if has && z.Name == sn && (c.SID == "" || j.Svc.ID == i.Svc.ID) {
+					ok = true
+				}
+			}
+			if !ok {
+				cl.owned = false
 			}
 		}
 	}
 	return cl
-}
-
-func sameChkCore(a, b ChkRow) bool {
-	a.SName, b.SName, a.STags, b.STags = "", "", 0, 0
-	return a == b
 }
 
 // expectedView: the received snapshot as CheckServiceNodes should return it afterwards.
@@ -1197,6 +1268,9 @@ func oracle(in *oracleIn, vip bool) (string, map[string]interface{}, map[string]
 		if o.Peer != in.peer {
 			return "op-without-peer:" + o.Kind, map[string]interface{}{"kind": "op-without-peer"}, flags
 		}
+		if o.RN != nil && o.RN.Peer != in.peer {
+			return "op-node-without-peer", map[string]interface{}{"kind": "op-without-peer"}, flags
+		}
 		if o.RS != nil && o.RS.Peer != in.peer {
 			return "op-service-without-peer", map[string]interface{}{"kind": "op-without-peer"}, flags
 		}
@@ -1214,7 +1288,7 @@ func oracle(in *oracleIn, vip bool) (string, map[string]interface{}, map[string]
 	}
 	// 2. frame: nothing that is not keyed by the peer changes, in any table
 	if bad := diffTables(in.peer, in.fullBefore, in.fullAfter); len(bad) > 0 {
-		sig := map[string]interface{}{"kind": "frame", "tables": strings.Join(bad, ","), "upstreams_involved": cl.hasUps || cl.storedUps || anyStoredUps(in)}
+		sig := map[string]interface{}{"kind": "frame", "tables": strings.Join(bad, ","), "upstreams_involved": cl.hasUps || anyStoredUps(in)}
 		return "frame:" + strings.Join(bad, ","), sig, flags
 	}
 	if in.err != nil {
@@ -1223,6 +1297,20 @@ func oracle(in *oracleIn, vip bool) (string, map[string]interface{}, map[string]
 	}
 	switch in.kind {
 	case "upsert":
+		if !cl.coherent {
+			return "", nil, flags // not something a catalog sends: only the frame is owed
+		}
+		// the first hypothesis of C17_mirror_partial that fails names the class
+		class := "none"
+		switch {
+		case cl.rename:
+			class = "node-id-moves"
+		case !cl.idsStable:
+			class = "check-owner-changes"
+		case !cl.owned:
+			class = "slot-not-owned"
+		}
+		flags["mirror_applicable"] = class == "none"
 		// 3. mirror
 		_, got, err := in.im.store.CheckServiceNodes(nil, in.service, nil, in.peer)
 		if err != nil {
@@ -1235,20 +1323,15 @@ func oracle(in *oracleIn, vip bool) (string, map[string]interface{}, map[string]
 				want[i].Svc.VIP = ""
 			}
 		}
-		applicable := cl.coherent && cl.idsStable && cl.owned
-		flags["mirror_applicable"] = applicable && !cl.rename
-		if applicable && !reflect.DeepEqual(want, have) {
+		if !reflect.DeepEqual(want, have) {
 			wb, _ := json.Marshal(want)
 			hb, _ := json.Marshal(have)
-			what := "mirror"
-			sig := map[string]interface{}{"kind": "mirror", "node_id_rename": cl.rename, "missing_instance": len(have) < len(want), "extra_instance": len(have) > len(want)}
-			return what + ": want " + string(wb) + " have " + string(hb), sig, flags
+			sig := map[string]interface{}{"kind": "mirror", "class": class, "diff": viewDiff(want, have)}
+			return "mirror(" + class + "): want " + string(wb) + " have " + string(hb), sig, flags
 		}
 		// 4. other services of the same peer keep their instances and service-level checks
-		if !cl.rename {
-			if msg := samePeerFrame(in); msg != "" {
-				return msg, map[string]interface{}{"kind": "same-peer-frame"}, flags
-			}
+		if msg := samePeerFrame(in); msg != "" {
+			return msg, map[string]interface{}{"kind": "same-peer-frame", "class": map[bool]string{true: "node-id-moves", false: "none"}[cl.rename]}, flags
 		}
 	case "list":
 		// 5. prune
@@ -1279,6 +1362,58 @@ func oracle(in *oracleIn, vip bool) (string, map[string]interface{}, map[string]
 	return "", nil, flags
 }
 
+// viewDiff names the first kind of difference between the received and the stored view
+func viewDiff(want, have []viewInst) string {
+	key := func(v viewInst) string { return v.Node.Name + "\x00" + v.Svc.ID }
+	hm := map[string]viewInst{}
+	for _, v := range have {
+		hm[key(v)] = v
+	}
+	wm := map[string]viewInst{}
+	for _, v := range want {
+		wm[key(v)] = v
+	}
+	for k := range wm {
+		if _, ok := hm[k]; !ok {
+			return "missing-instance"
+		}
+	}
+	for k := range hm {
+		if _, ok := wm[k]; !ok {
+			return "extra-instance"
+		}
+	}
+	for k, w := range wm {
+		h := hm[k]
+		if w.Node != h.Node || !reflect.DeepEqual(w.Svc, h.Svc) {
+			return "content"
+		}
+		wc, hc := map[string]ChkRow{}, map[string]ChkRow{}
+		for _, c := range w.Chks {
+			wc[c.ID] = c
+		}
+		for _, c := range h.Chks {
+			hc[c.ID] = c
+		}
+		for id := range wc {
+			if _, ok := hc[id]; !ok {
+				return "missing-check"
+			}
+		}
+		for id := range hc {
+			if _, ok := wc[id]; !ok {
+				return "extra-check"
+			}
+		}
+		for id, c := range wc {
+			if hc[id] != c {
+				return "content"
+			}
+		}
+	}
+	return "order"
+}
+
 func anyStoredUps(in *oracleIn) bool {
 	for _, s := range in.catBefore.Svcs {
 		if s.Peer == in.peer && len(s.Ups) > 0 {
@@ -1292,8 +1427,10 @@ func samePeerFrame(in *oracleIn) string {
 	type nk = [2]string
 	slot := map[nk]bool{}
 	snapChk := map[nk]bool{}
+	snapNode := map[string]bool{}
 	for _, c := range in.nodes {
 		slot[nk{c.Node.Node, c.Service.ID}] = true
+		snapNode[c.Node.Node] = true
 		for _, k := range c.Checks {
 			snapChk[nk{c.Node.Node, string(k.CheckID)}] = true
 		}
@@ -1306,7 +1443,17 @@ func samePeerFrame(in *oracleIn) string {
 	for _, c := range in.catAfter.Chks {
 		afterC[[3]string{c.Peer, c.Node, c.ID}] = c
 	}
+	afterN := map[[2]string]NodeRow{}
+	for _, n := range in.catAfter.Nodes {
+		afterN[[2]string{n.Peer, n.Name}] = n
+	}
 	other := map[nk]bool{}
+	hostsSn := map[string]bool{}
+	for _, s := range in.catBefore.Svcs {
+		if s.Peer == in.peer && s.Name == in.service {
+			hostsSn[s.Node] = true
+		}
+	}
 	for _, s := range in.catBefore.Svcs {
 		if s.Peer != in.peer || s.Name == in.service || slot[nk{s.Node, s.ID}] {
 			continue
@@ -1315,6 +1462,15 @@ func samePeerFrame(in *oracleIn) string {
 		if t, ok := after[[3]string{s.Peer, s.Node, s.ID}]; !ok || !reflect.DeepEqual(t, s) {
 			return fmt.Sprintf("same-peer-frame: instance %s/%s of service %s changed", s.Node, s.ID, s.Name)
 		}
+		if !snapNode[s.Node] {
+			for _, n := range in.catBefore.Nodes {
+				if n.Peer == in.peer && n.Name == s.Node {
+					if t, ok := afterN[[2]string{n.Peer, n.Name}]; !ok || t != n {
+						return fmt.Sprintf("same-peer-frame: node %s of instance %s changed", n.Name, s.ID)
+					}
+				}
+			}
+		}
 	}
 	for _, c := range in.catBefore.Chks {
 		if c.Peer != in.peer || c.SID == "" || !other[nk{c.Node, c.SID}] || snapChk[nk{c.Node, c.ID}] {
@@ -1322,6 +1478,22 @@ func samePeerFrame(in *oracleIn) string {
 		}
 		if t, ok := afterC[[3]string{c.Peer, c.Node, c.ID}]; !ok || t != c {
 			return fmt.Sprintf("same-peer-frame: check %s/%s of instance %s changed", c.Node, c.ID, c.SID)
+		}
+	}
+	// nodes that are not in the snapshot and host no instance of the service keep every row
+	for _, n := range in.catBefore.Nodes {
+		if n.Peer != in.peer || snapNode[n.Name] || hostsSn[n.Name] {
+			continue
+		}
+		if t, ok := afterN[[2]string{n.Peer, n.Name}]; !ok || t != n {
+			return fmt.Sprintf("same-peer-frame: uninvolved node %s changed", n.Name)
+		}
+		for _, c := range in.catBefore.Chks {
+			if c.Peer == in.peer && c.Node == n.Name {
+				if t, ok := afterC[[3]string{c.Peer, c.Node, c.ID}]; !ok || t != c {
+					return fmt.Sprintf("same-peer-frame: check %s on uninvolved node %s changed", c.ID, n.Name)
+				}
+			}
 		}
 	}
 	return ""
@@ -1626,6 +1798,7 @@ func main() {
 	r := rand.New(rand.NewSource(*seed*7919 + 17))
 	for i := 0; i < exports; i++ {
 		c := exportCase(r, id)
+		c.Replay = &ReplayWorld{Seed: *seed, Export: i + 1}
 		id++
 		if err := enc.Encode(c); err != nil {
 			panic(err)
@@ -1647,6 +1820,21 @@ func doReplay(path string) {
 		os.Exit(2)
 	}
 	rw := obj.Replay
+	if rw.Export > 0 {
+		r := rand.New(rand.NewSource(rw.Seed*7919 + 17))
+		var c *Case
+		for i := 0; i < rw.Export; i++ {
+			c = exportCase(r, i)
+		}
+		c.Replay = rw
+		js, _ := json.MarshalIndent(c, "", " ")
+		fmt.Println(string(js))
+		if c.Oracle != "" {
+			fmt.Println("ORACLE:", c.Oracle)
+			os.Exit(1)
+		}
+		return
+	}
 	w := newWorld(rw.Seed, rw.World, rw.VIP)
 	var c *Case
 	for s := 0; s <= rw.Step; s++ {
